@@ -117,6 +117,16 @@ def probe_alias(it, pr, ctx, case, flags):
     muts = SETTABLE[ent.kind]
     what, val = muts[pr["mut"] % len(muts)]
     key = "C05/alias/%s/%s" % (ent.kind, via[0].split(":")[0] + ":" + via[0].split(":")[1].split(".")[-1])
+    # handles obtained before the mutation and already used for reading are access paths as well:
+    # a change must be visible through them (no per-handle caches of attributes, data or children)
+    kept = []
+    for label, getter in P:
+        try:
+            g = getter()
+            walk.walk_obj(g, timestamps=False)
+            kept.append((label, g))
+        except Exception:  # noqa
+            pass
     try:
         h = via[1]()
     except Exception as exc:  # noqa
@@ -147,7 +157,11 @@ def probe_alias(it, pr, ctx, case, flags):
             it.reopen("a")
             flags.add("alias-reopen")
         ref_walk = None
-        for label, getter in P:
+        paths_now = list(P)
+        if rnd == "now":
+            paths_now += [("kept-handle:" + lab, (lambda g=g: g)) for lab, g in kept]
+            flags.add("alias-kept-handles")
+        for label, getter in paths_now:
             try:
                 g = getter()
             except Exception as exc:  # noqa
@@ -240,8 +254,22 @@ def probe_dimlink(it, pr, ctx, case, flags):
         vals = d.ticks if kind == "range" else d.labels
         return [str(x) for x in vals] if data.dtype == object else [float(x) for x in vals]
 
+    kept_dims = []
+
     def compare(when, cur):
-        d = holder.dimensions[0]
+        _compare(when, cur, holder.dimensions[0], "fresh")
+        for lab, kd in kept_dims:
+            _compare(when + ":" + lab, cur, kd, "kept-handle")
+        if not kept_dims:
+            kd = holder.dimensions[0]
+            try:
+                observe(kd)
+                kd.unit, kd.label
+            except Exception:  # noqa
+                pass
+            kept_dims.append(("kept-since-link", kd))
+
+    def _compare(when, cur, d, hcls):
         try:
             got = observe(d)
         except Exception as exc:  # noqa
@@ -250,13 +278,13 @@ def probe_dimlink(it, pr, ctx, case, flags):
             return
         want = expect_values(cur)
         if got != want:
-            ctx.violation("C05/dimlink/%s/values/%s" % (kind, cls), case,
+            ctx.violation("C05/dimlink/%s/values/%s/%s" % (kind, cls, hcls), case,
                           {"when": when, "want": want[:6], "got": got[:6], "index": raw_index})
         if not d.has_link:
             ctx.violation("C05/dimlink/%s/has_link-false" % kind, case, {"when": when})
         if kind == "range":
             if d.unit != tgt.unit or d.label != tgt.label:
-                ctx.violation("C05/dimlink/range/unit-label", case,
+                ctx.violation("C05/dimlink/range/unit-label/" + hcls, case,
                               {"when": when, "unit": [d.unit, tgt.unit], "label": [d.label, tgt.label]})
             if not d.is_alias:
                 ctx.violation("C05/dimlink/range/is_alias-false", case, {"when": when})
@@ -285,6 +313,7 @@ def probe_dimlink(it, pr, ctx, case, flags):
         it.reopen("a")
         bh = it.handle(blk)
         tgt, holder = bh.data_arrays[tname], bh.data_arrays[hname]
+        del kept_dims[:]
         compare("after-reopen", cur)
     # explicit ticks / labels replace the link
     d = holder.dimensions[0]
@@ -431,7 +460,7 @@ def probe_strategy():
                                     "scenario": st.sampled_from(["same-block", "nested-source", "wrong-kind",
                                                                  "other-block-different-name", "other-block-same-name",
                                                                  "other-block-same-name"])})
-    return st.one_of(alias, alias, good_dimlink(), dimlink, append, append)
+    return gen.weighted([alias, alias, good_dimlink(), dimlink, append, append])
 
 
 def case_strategy():
